@@ -87,7 +87,7 @@ CLAIMS["C09"] = dict(
           "and from Lch carry (l,a,b,chroma); Euclidean, HyAB, Delta E and the improved variants of every implementing type equal their closed "
           "forms with Huang et al.'s coefficients, are symmetric and zero at identity as exact normal forms; polar impls go through the "
           "rectangular form; WCAG contrast = (max+0.05)/(min+0.05), symmetric, with the five WCAG 2.1 thresholds. Does not decide the symmetry "
-          "of CIEDE2000 across its hue case split or the [1,21] range. The mean-hue wrap uses palette's documented +360-only form."),
+          "of CIEDE2000 across its hue case split or the [1,21] range. The mean hue is Sharma's three-case eq. 14 (the pinned tree's single-wrap form was defect F12, repaired)."),
     design_ref="DESIGN.md §3 C09",
 )
 
@@ -127,7 +127,8 @@ CLAIMS["C07"] = dict(
           "(about 70 distinct after macro expansion) listed in a reviewed table (keys: normalised divisor, invariant under let-introduction "
           "and reordering) with the reason the divisor is non-zero on the property's input domain; 2 sites (`/ v_prime` in Xyz<-Luv) are the "
           "open known finding F9 (in-range imaginary Luv colour gives infinity); a new or newly unguarded site, or a table line that matches "
-          "nothing, fails. 584 conversion / clamp / operator / "
+          "nothing, fails. The same discipline for partial real functions: all 36 sqrt / ln / powf / acos / asin call sites have an argument that is a constant "
+          "in the domain, non-negative by its shape (sum of squares, abs, even powers, max with 0, roots), or one of 24 reviewed table lines. 584 conversion / clamp / operator / "
           "blend / colour-difference bodies contain no unwrap, expect, panic!, unreachable! or slice indexing. Not decided: overflow of "
           "finite intermediates, NaN from transcendental functions, rounding that zeroes an algebraically non-zero divisor where the table "
           "argues over the reals."),
@@ -196,7 +197,8 @@ CLAIMS["C12"] = dict(
           "digits ×17. LowerHex/UpperHex write red,green,blue (Alpha: colour, alpha) padded to 2·size_of::<T>(). For all colours: "
           "unpack∘pack is the identity for each of the 6 ComponentOrder impls and pack's order spells the type name; integer forms pair "
           "from_be_bytes/to_be_bytes; From<u32> uses ARGB for Rgb and RGBA for Rgba both ways. All 148 lines of svg_colors.txt have their "
-          "constant and map entry (lower-case, unique, no others). Not decided: the phf displacement tables (that lookup of a listed name "
+          "constant and map entry (lower-case, unique, no others); named::from_str is the map lookup, and every early-out in front of it is evaluated "
+          "on each of the 148 keys and must let all of them through. Not decided: the phf displacement tables (that lookup of a listed name "
           "lands on its entry) in the quick tier."),
     design_ref="DESIGN.md §3 C12",
 )
@@ -259,7 +261,9 @@ CLAIMS["C17"] = dict(
           "276 comparisons) has the same normal form as the f32/f64 implementation - comparisons, min/max/clamp (on all orderings with "
           "min<=max), lane loops of cbrt/floor/ceil, signum via copysign, is_valid_divisor = is_normal, powi/powu on concrete exponents "
           "(num::pow = x^k for k<=32), mask from_bool/select/lazy_select; no body reaches an approximate wide intrinsic (recip, recip_sqrt, "
-          "fast_*); masks are reduced to a bool only inside the TypeId(Mask)==bool arm or in the listed slice reduction; all 126 "
+          "fast_*); pow(x, 1/3) is kept distinct from the lane-wise cbrt (they differ on negative lanes); masks are reduced to a bool only inside "
+          "the TypeId(Mask)==bool arm or in the listed slice reduction, and the reductions themselves are decided on a two-lane model (is_true = all "
+          "lanes, is_false = no lane: the one-lane abstraction cannot tell none() from !all()); all 126 "
           "[Color<T>;N] <-> Color<V> conversions map lane i of each field (hue, alpha) to element i; the scalar and mask-generic arms of "
           "Rgb->Hsv and Rgb->Hsl are equal (hue mod 360) and equal the hexcone model on all 26 sign/ordering regions of (r,g,b) (thorough: "
           "plus negative channels). Not decided: f32 vs f64 accuracy, accuracy of wide's transcendental approximations, wide's round-half-even "
@@ -276,7 +280,9 @@ CLAIMS["C18"] = dict(
           "arguments (modulo the component's own field, e.g. value.<f>), that operation is the one the method stands for, and each field of "
           "the returned colour/iterator is computed from the same-named component only (origins traced through let, tuple patterns, `?`, "
           "Option::map/zip closures). This is the inductive step of 'all component collections have equal length and element i of "
-          "component f is colour i's f'; base cases build every component with the same constructor. Decides the lockstep structure, a "
+          "component f is colour i's f'; base cases build every component with the same constructor. All 104 collection impls on Alpha "
+          "(get/set/push/pop/clear/drain/...) cover every alpha collection (free, unbounded alpha parameter): where one does not apply the call falls "
+          "through Deref to the colour's method of the same name and skips the alpha. Decides the lockstep structure, a "
           "necessary condition of the Vec<Color> equivalence, not the equivalence over histories itself; std's Vec/slice semantics trusted."),
     design_ref="DESIGN.md §3 C18",
 )
